@@ -6,8 +6,18 @@ use grenad::{CompressionType, Reader};
 use std::io::{Cursor, Write};
 
 fn scan_current(file: &[u8], backward: bool) -> String {
-    let r = catch(|| -> Result<(u64, u64), String> {
-        let reader = Reader::new(Cursor::new(file)).map_err(|e| err_class(&e))?;
+    // one file out of three is read through a plain Cursor, the others through a source that hands out
+    // at most a few bytes (or a few hundred) per read call, as a pipe or a small BufReader does
+    match fnv(file) % 3 {
+        0 => scan_current_from(Cursor::new(file), backward),
+        1 => scan_current_from(crate::c_hist::Counting::short(file.to_vec(), 1 + (file.len() % 11)), backward),
+        _ => scan_current_from(crate::c_hist::Counting::short(file.to_vec(), 300 + (file.len() % 777)), backward),
+    }
+}
+
+fn scan_current_from<R: std::io::Read + std::io::Seek>(src: R, backward: bool) -> String {
+    let r = catch(move || -> Result<(u64, u64), String> {
+        let reader = Reader::new(src).map_err(|e| err_class(&e))?;
         let mut c = reader.into_cursor().map_err(|e| err_class(&e))?;
         let mut items: Vec<(Vec<u8>, Vec<u8>)> = Vec::new();
         loop {
@@ -104,7 +114,14 @@ pub fn emit<W: Write>(c: &mut Cases<W>, cfg: &FileCfg, entries: &[(Vec<u8>, Vec<
             for (k, v) in entries {
                 w.insert(k, v).map_err(|e| io_class(&e))?;
             }
-            Ok(w.into_inner().map_err(|e| io_class(&e))?.data.into_inner())
+            let sink = w.into_inner().map_err(|e| io_class(&e))?;
+            // the sink commits on flush (a BufWriter, a transactional store): when into_inner returns,
+            // everything written must have been flushed
+            if ctl.committed.get() != ctl.bytes_written.get() {
+                println!("DIRECT fail flush: Writer::into_inner returned with {} of {} written bytes not followed by a flush of the sink",
+                         ctl.bytes_written.get() - ctl.committed.get(), ctl.bytes_written.get());
+            }
+            Ok(sink.data.into_inner())
         });
         c.bump("partial_write_sink", 1);
         match r {
@@ -194,6 +211,20 @@ pub fn generate<W: Write>(c: &mut Cases<W>, rng: &mut Rng, thorough: bool, with_
             let es = vec![(vec![1u8], vec![5u8; 10]), (vec![2u8], big), (vec![3u8], vec![6u8; 10])];
             emit(c, &cfg, &es, false);
         }
+    }
+    // a block of more than a mebibyte that compresses a thousandfold (one repeated byte, then a short
+    // period), for every compressing codec: output buffers sized from the compressed input do not hold it
+    for (ci, codec) in CODECS.into_iter().enumerate() {
+        if codec == CompressionType::None {
+            continue;
+        }
+        let cfg = FileCfg { codec, level: [1u32, 3, 6][ci % 3], block_size: 4096, levels: 0, ..base.clone() };
+        let mut big = vec![0x41u8; 1_150_000];
+        for (i, b) in big.iter_mut().enumerate().skip(1_100_000) {
+            *b = (i % 7) as u8;
+        }
+        let es = vec![(vec![1u8], vec![5u8; 10]), (vec![2u8], big), (vec![3u8], vec![6u8; 10])];
+        emit(c, &cfg, &es, false);
     }
     // index_levels sweep (thorough: all 0..=255)
     let sweep: Vec<u8> = if thorough { (0..=255).collect() } else { vec![0, 1, 2, 3, 5, 8, 127, 128, 254, 255] };
